@@ -11,6 +11,9 @@ the "within one 8-bit gray step" clause of `to_gray` (both enumerated).
 import Pastel.RealInst
 import Pastel.Model.Color
 import Pastel.Lemmas.RealColor
+import Pastel.Props.C05
+import Pastel.Lemmas.Hexcone
+import Pastel.Lemmas.LumMono
 
 namespace Pastel.C09
 open Pastel
@@ -140,5 +143,84 @@ theorem text_contrast_near_best (L : ℝ) (h0 : 0 ≤ L) (h1 : L ≤ 1) :
 /-- Non-vacuity: a mid-gray background (luminance 0.2159) gets black text with contrast 5.3. -/
 example : (4.58 : ℝ) ≤ contrastOfLum 0.2159 (if (0.179 : ℝ) < 0.2159 then 0 else 1) :=
   text_contrast_ge 0.2159 (by norm_num) (by norm_num)
+
+/-! ### Strictly increasing in each RGB channel
+
+For 8-bit colours the float channels are exactly `k/255` (C03's hexcone theorem), so the luminance
+is `0.2126·f(r/255) + 0.7152·f(g/255) + 0.0722·f(b/255)` with `f` the sRGB linearisation, and `f`
+is strictly increasing on the 256 levels (`LumMono.lumF_lattice_strictMono`; over all reals it is
+not — see that file). -/
+
+/-- The luminance of an 8-bit colour, in terms of its bytes (any alpha). -/
+theorem luminance_rgb8 (r g b : UInt8) (a : ℝ) :
+    luminance (fromRgba8 r g b a : Color ℝ) =
+      0.2126 * lumF ((r.toNat : ℝ) / 255) + 0.7152 * lumF ((g.toNat : ℝ) / 255) + 0.0722 * lumF ((b.toNat : ℝ) / 255) := by
+  unfold luminance
+  rw [fromRgba8_toRgbaFloat]
+  sc_norm
+  rfl
+
+/-- **Strictly increasing in the red channel** (all other inputs equal; alpha irrelevant). -/
+theorem luminance_strict_red (r r' g b : UInt8) (a a' : ℝ) (h : r < r') :
+    luminance (fromRgba8 r g b a : Color ℝ) < luminance (fromRgba8 r' g b a' : Color ℝ) := by
+  rw [luminance_rgb8, luminance_rgb8]
+  have := LumMono.lumF_lattice_strictMono r.toNat r'.toNat (UInt8.lt_iff_toNat_lt.mp h)
+  nlinarith
+
+theorem luminance_strict_green (r g g' b : UInt8) (a a' : ℝ) (h : g < g') :
+    luminance (fromRgba8 r g b a : Color ℝ) < luminance (fromRgba8 r g' b a' : Color ℝ) := by
+  rw [luminance_rgb8, luminance_rgb8]
+  have := LumMono.lumF_lattice_strictMono g.toNat g'.toNat (UInt8.lt_iff_toNat_lt.mp h)
+  nlinarith
+
+theorem luminance_strict_blue (r g b b' : UInt8) (a a' : ℝ) (h : b < b') :
+    luminance (fromRgba8 r g b a : Color ℝ) < luminance (fromRgba8 r g b' a' : Color ℝ) := by
+  rw [luminance_rgb8, luminance_rgb8]
+  have := LumMono.lumF_lattice_strictMono b.toNat b'.toNat (UInt8.lt_iff_toNat_lt.mp h)
+  nlinarith
+
+/-- Channel-wise `≤` gives `≤`, and luminance separates distinct comparable colours. -/
+theorem luminance_mono (r r' g g' b b' : UInt8) (a a' : ℝ) (hr : r ≤ r') (hg : g ≤ g') (hb : b ≤ b') :
+    luminance (fromRgba8 r g b a : Color ℝ) ≤ luminance (fromRgba8 r' g' b' a' : Color ℝ) := by
+  have step : ∀ x y : UInt8, x ≤ y → lumF ((x.toNat : ℝ) / 255) ≤ lumF ((y.toNat : ℝ) / 255) := by
+    intro x y hxy
+    rcases Nat.eq_or_lt_of_le (UInt8.le_iff_toNat_le.mp hxy) with e | l
+    · rw [e]
+    · exact (LumMono.lumF_lattice_strictMono _ _ l).le
+  rw [luminance_rgb8, luminance_rgb8]
+  have := step r r' hr
+  have := step g g' hg
+  have := step b b' hb
+  nlinarith
+
+/-- Non-vacuity across the cut: the step from level 10 to level 11 in the blue channel. -/
+example : luminance (fromRgba8 4 0 10 1 : Color ℝ) < luminance (fromRgba8 4 0 11 1 : Color ℝ) :=
+  luminance_strict_blue 4 0 10 11 1 1 (by decide)
+
+/-! ### `to_gray` returns an achromatic colour -/
+
+/-- The stored saturation of `to_gray`'s result is exactly 0, for every colour. -/
+theorem toGray_sat (c : Color ℝ) : (toGray c).sat = 0 := by
+  have hv := (C05.fromLch_valid (toLch c).x (0.0 : ℝ) 0.0 c.alpha).sat_range
+  obtain ⟨_, h0, h1⟩ := hv
+  show (desaturate (fromLch (toLch c).x 0.0 0.0 c.alpha) 1.0).sat = 0
+  unfold desaturate saturate fromHsla clamp
+  sc_norm
+  have h1' : (fromLch (toLch c).x (0.0 : ℝ) 0.0 c.alpha).sat ≤ 1 := by
+    have := h1
+    simpa using this
+  have : (fromLch (toLch c).x (0.0 : ℝ) 0.0 c.alpha).sat + -(1.0 : ℝ) ≤ 0 := by norm_num; linarith
+  push_cast
+  rw [max_eq_right]
+  exact le_trans (min_le_right _ _) this
+
+/-- …so its three float channels are equal (R = G = B), namely its lightness. -/
+theorem toGray_achromatic (c : Color ℝ) :
+    (toRgbaFloat (toGray c)).x = (toGray c).light ∧ (toRgbaFloat (toGray c)).y = (toGray c).light ∧
+    (toRgbaFloat (toGray c)).z = (toGray c).light :=
+  toRgbaFloat_achromatic _ (by rw [toGray_sat]; ring)
+
+/-- `to_gray` keeps the stored hue (so that saturation can be added again). -/
+theorem toGray_hue {α : Type} [ScT α] (c : Color α) : (toGray c).hue = c.hue := rfl
 
 end Pastel.C09
